@@ -13,7 +13,7 @@ import (
 func init() { Registry["C10"] = checkC10 }
 
 func checkC10(p *core.Prog, r *core.Report) {
-	r.Explanation = "Decides structural necessary conditions of leader-only decisions: (R1) in LockDB.Lock/UnLock every engine mutation (mutator call or store to hold/queue/value state) lies on a path where the node's role was tested under the shard mutex in the same critical section and is leader, or the request is marked as replay (FROM_AOF); the role field LockDB.status is only written with the shard mutexes held (interprocedural lock-state); (R2) in the follower-side (Transparency*) protocols every call into the local engine lies on a path that tested slock.state == LEADER (or, for pass-through of non-lock commands, tested the command type); (R3) PushLockAof / PushUnLockAof / PushExecutorLockCommand reach their push only after testing status == LEADER; (R4) doExpried ends a hold on its own clock only when forced, leader, not replicated, or after the leader-wait window (EXPRIED_WAIT_LEADER_MAX_TIME) has elapsed; (R5) the leader and follower text command registries have the same command names; (R6) the replay mark FROM_AOF (flag 0x04), which exempts a request from the role test, is never taken from a client frame: every client-facing decoder path to the engine masks or rejects it. (R7) the only local answer of a non-leader, the concurrent-check shortcut, is given only to requests with that flag and Timeout == 0; (R8) AddLock marks every hold created from a replayed record as isAof independent of role (what the follower's expiry arm re-arms). NOT decided: reply relaying fidelity, reconnection to a new leader, equality of outcomes across nodes."
+	r.Explanation = "Decides structural necessary conditions of leader-only decisions: (R1) in LockDB.Lock/UnLock every engine mutation (mutator call or store to hold/queue/value state) lies on a path where the node's role was tested under the shard mutex in the same critical section and is leader, or the request is marked as replay (FROM_AOF); the role field LockDB.status is only written with the shard mutexes held (interprocedural lock-state); (R2) in the follower-side (Transparency*) protocols every call into the local engine lies on a path that tested slock.state == LEADER (or, for pass-through of non-lock commands, tested the command type); (R3) PushLockAof / PushUnLockAof / PushExecutorLockCommand reach their push only after testing status == LEADER; (R4) doExpried ends a hold on its own clock only when forced, leader, not replicated, or after the leader-wait window (EXPRIED_WAIT_LEADER_MAX_TIME) has elapsed; (R5) the leader and follower text command registries have the same command names; (R6) the replay mark FROM_AOF (flag 0x04), which exempts a request from the role test, is never taken from a client frame: every client-facing decoder path to the engine masks or rejects it. (R7) the only local answer of a non-leader, the concurrent-check shortcut, is given only to requests with that flag and Timeout == 0; (R8) AddLock marks every hold created from a replayed record as isAof independent of role (what the follower's expiry arm re-arms); (R9) Server.handle re-dispatches the request a protocol object had already read when it handed back AGAIN (role change) before reading the next one. NOT decided: reply relaying fidelity, reconnection to a new leader, equality of outcomes across nodes."
 	r.Assumptions = []string{"Go type checker, go/ssa and VTA call graph are correct for /repo", "all *PriorityMutex values are one abstract lock class"}
 	c10R1(p, r)
 	c10R1b(p, r)
@@ -24,6 +24,7 @@ func checkC10(p *core.Prog, r *core.Report) {
 	c10R6(p, r)
 	c10R7(p, r)
 	c10R8(p, r)
+	c10R9(p, r)
 }
 
 func engineStateStore(k core.FieldKey) bool {
@@ -533,5 +534,126 @@ func c10R8(p *core.Prog, r *core.Report) {
 	}
 	if n == 0 {
 		r.Fail("C10/R8: AddLock has no path that tests the FROM_AOF flag")
+	}
+}
+
+// c10R9: a connection's protocol object hands control back to Server.handle
+// with AGAIN when the node's role changed under it; the request it had already
+// read is stashed (rbuf / the parsed text command). handle must re-dispatch
+// that request through the protocol object that fits the new role before it
+// reads the next one, otherwise the request is neither refused nor forwarded.
+func c10R9(p *core.Prog, r *core.Report) {
+	const rule = "C10/R9"
+	r.Rule(rule, "Server.handle reads the next request (Process) only after testing the previous result for AGAIN and, when it was AGAIN, after re-dispatching the stashed request (ProcessParse of the stashed bytes / RunCommand)", 8)
+	fn := mustFunc(p, r, "server.(*Server).handle")
+	if fn == nil {
+		return
+	}
+	// the protocol types whose Process can hand back AGAIN (filled from the code)
+	var stashers []string
+	for _, f := range p.FuncsIn("server") {
+		if f.Name() != "Process" || f.Signature.Recv() == nil || f.Blocks == nil {
+			continue
+		}
+		for _, b := range f.Blocks {
+			for _, ins := range b.Instrs {
+				if u, ok := ins.(*ssa.UnOp); ok {
+					if g, ok := u.X.(*ssa.Global); ok && g.Name() == "AGAIN" {
+						stashers = append(stashers, recvName(f))
+					}
+				}
+			}
+		}
+	}
+	if len(stashers) == 0 {
+		r.Fail("C10/R9: no protocol type's Process returns AGAIN")
+		return
+	}
+	n := 0
+	ex := core.NewExplorer(p, core.Hooks{
+		Track: func(x *core.X, a core.Atom) bool { return false },
+		Branch: func(x *core.X, a core.Atom) {
+			if x.Top() && a.Op == "==" && a.R == "false" {
+				for _, t := range stashers {
+					if strings.HasSuffix(a.L, ".(*"+t+")#1") {
+						x.Set("excl:"+t, "1")
+					}
+				}
+			}
+			if !x.Top() || !(strings.HasSuffix(a.L, "AGAIN") || strings.HasSuffix(a.R, "AGAIN")) {
+				return
+			}
+			switch a.Op {
+			case "==":
+				x.Set("pending", "yes")
+			case "!=":
+				x.Set("pending", "no")
+			}
+		},
+		Instr: func(x *core.X) {
+			if !x.Top() {
+				return
+			}
+			ci, ok := x.Ins.(ssa.CallInstruction)
+			if !ok {
+				return
+			}
+			if _, isGo := x.Ins.(*ssa.Go); isGo {
+				return
+			}
+			if _, isDefer := x.Ins.(*ssa.Defer); isDefer {
+				return
+			}
+			name := ""
+			if ci.Common().IsInvoke() {
+				name = ci.Common().Method.Name()
+			} else if c := ci.Common().StaticCallee(); c != nil && c.Signature.Recv() != nil {
+				name = c.Name()
+			}
+			switch name {
+			case "ProcessParse":
+				if a := core.Plain(argCanon(x, x.Ins, 1)); strings.Contains(a, ".rbuf") && x.Get("pending") == "yes" {
+					x.Set("pending", "replayed")
+				}
+			case "RunCommand":
+				if x.Get("pending") == "yes" {
+					x.Set("pending", "replayed")
+				}
+			case "Process":
+				n++
+				key := siteKey(p, x.Ins)
+				// an arm for protocol objects that never stash (every stashing type excluded on the path)
+				never := true
+				for _, t := range stashers {
+					if x.Get("excl:"+t) != "1" {
+						never = false
+					}
+				}
+				switch {
+				case never:
+					r.Hold(rule, key, x.Pos(), "protocol object of a type that never hands back a stashed request")
+				case x.Get("pending") == "no":
+					r.Hold(rule, key, x.Pos(), "previous result tested: nothing stashed")
+				case x.Get("pending") == "replayed":
+					r.Hold(rule, key, x.Pos(), "stashed request re-dispatched first")
+				case x.Get("pending") == "yes":
+					r.Violate(rule, key, x.Pos(), "the previous protocol object returned AGAIN (it had read a request and stashed it) and the next request is read without re-dispatching the stashed one: that request is neither refused nor forwarded, its client gets no reply", x.St.Trace)
+				default:
+					r.Violate(rule, key, x.Pos(), "the next request is read without testing whether the previous protocol object handed back a stashed request (AGAIN): after a role change the request already read is dropped - neither refused nor forwarded", x.St.Trace)
+				}
+				for _, t := range stashers {
+					x.Set("excl:"+t, "")
+				}
+				x.Set("pending", "")
+			}
+		},
+	})
+	ex.NoHist = true
+	ex.Run(fn, nil)
+	if ex.Imprecise != "" {
+		r.Fail("C10/R9: %s", ex.Imprecise)
+	}
+	if n == 0 {
+		r.Fail("C10/R9: no Process call found in Server.handle")
 	}
 }
